@@ -48,6 +48,7 @@ class CTransError(Exception):
 SIGNED = {'int', 'rci_t', 'wi_t', 'long', 'long long', 'signed', 'signed int', 'BIT', 'ssize_t', 'ptrdiff_t', 'int64_t', 'int32_t'}
 U64 = {'word', 'uint64_t', 'unsigned long', 'unsigned long long', 'size_t', 'long unsigned int', 'uintptr_t'}
 U32 = {'unsigned int', 'unsigned', 'uint32_t'}
+U8 = {'uint8_t', 'unsigned char'}
 
 
 def norm_type(q):
@@ -72,17 +73,21 @@ def kind_of(q):
         return 'w'
     if q in U32:
         return 'u'
+    if q in U8:
+        return 'c'
     if q in ('double', 'float'):
         return 'd'
     return None
 
 
-LTYPE = {'i': 'Int', 'w': 'BitVec 64', 'u': 'BitVec 32', 'm2': 'Int → Int → BitVec 64', 'b': 'Bool', 'm1i': 'Int → Int',
+LTYPE = {'i': 'Int', 'w': 'BitVec 64', 'u': 'BitVec 32', 'c': 'BitVec 8', 'm2': 'Int → Int → BitVec 64', 'b': 'Bool', 'm1i': 'Int → Int',
          'cb': 'Int → Int → Int'}
-WIDTH = {'w': 64, 'u': 32}
+WIDTH = {'w': 64, 'u': 32, 'c': 8}
 
 
 def lean_type(k):
+    if k.startswith('fn:'):
+        return k[3:]
     if k in LTYPE:
         return LTYPE[k]
     if k.startswith('p:') and k[2:] in LTYPE:
@@ -151,6 +156,10 @@ class Fn:
         self.ret_kind = None
         self.void_outs = None
         self.prelude = ''
+        self.malias = {}          # matrix window local -> (root struct parameter, Lean var of row offset, Lean var of word offset)
+        self.malias_pre = {}      # pre-pass: matrix window local -> root struct parameter
+        self.sbuild = None        # struct-builder mode: the local struct (from mzd_t_malloc) whose fields are the result
+        self.sfields = []
         self.salias = {}          # struct pointer local -> (base struct parameter, Lean term of the begin offset)
         self.salias_pre = {}      # pre-pass: struct pointer local -> base struct parameter
         self.wfields = set()      # pre-pass: (base struct, field) of array fields written through `X->f[i] = e`
@@ -247,6 +256,10 @@ class Fn:
             return self.free(V(name), kk)
         if k == 'MemberExpr':
             base = strip(n['inner'][0])
+            if base.get('kind') == 'DeclRefExpr' and base['referencedDecl']['name'] == self.sbuild:
+                return V('fld_' + n['name'])
+            if base.get('kind') == 'DeclRefExpr' and base['referencedDecl']['name'] in self.malias:
+                return V('%s_%s' % (base['referencedDecl']['name'], n['name']))
             if base.get('kind') == 'DeclRefExpr':
                 nm = '%s_%s' % (base['referencedDecl']['name'], n['name'])
                 return self.free(V(nm), self.expr_kind(n), ('field', base['referencedDecl']['name'], n['name']))
@@ -373,6 +386,36 @@ class Fn:
             return '(%s %s)' % (self.tr.known_fns[fname], ' '.join(self.call_args(sig, n['inner'][1:])))
         raise CTransError('%s: unsupported expression kind %s' % (self.name, k))
 
+    def mroot(self, name):
+        """(root struct parameter, Lean row offset, Lean word offset) of a matrix name (parameter or window local)"""
+        if name in self.malias:
+            return self.malias[name]
+        return name, '(0 : Int)', '(0 : Int)'
+
+    def mfield(self, name, f, kind):
+        if name in self.malias:
+            return V('%s_%s' % (name, f))
+        return self.free(V('%s_%s' % (name, f)), kind, ('field', name, f))
+
+    def mview(self, name):
+        """`CLoop.MView` of a matrix name"""
+        root, r0, w0 = self.mroot(name)
+        mem = 'mem_' + root
+        if mem not in self.locals:
+            self.locals[mem] = 'm2'
+            self.free(V(mem), 'm2', ('mem', root))
+        m = V(mem) if name not in self.malias else '(CLoop.view %s %s %s)' % (V(mem), r0, w0)
+        return '(CLoop.MView.mk %s %s %s %s %s)' % (m, self.mfield(name, 'nrows', 'i'), self.mfield(name, 'ncols', 'i'),
+                                                   self.mfield(name, 'width', 'i'), self.mfield(name, 'high_bitmask', 'w'))
+
+    def struct_arg_name(self, an):
+        a = strip(an)
+        while a.get('kind') in ('CStyleCastExpr', 'ImplicitCastExpr'):
+            a = strip(a['inner'][0])
+        if a.get('kind') != 'DeclRefExpr':
+            raise CTransError('%s: struct argument that is not a variable' % self.name)
+        return a['referencedDecl']['name']
+
     def call_args(self, sig, argnodes):
         """Lean arguments for a call of a translated function: scalar C parameters from the argument expressions;
         the callee's struct fields / memories / identity flags from the caller's struct argument of the same position"""
@@ -398,19 +441,45 @@ class Fn:
                 out.append(bind[org[1]][1])
             elif org[0] == 'field':
                 y = bind[org[1]][1]
-                out.append(self.free(V('%s_%s' % (y, org[2])), lk, ('field', y, org[2])))
+                if y in self.malias:
+                    out.append(V('%s_%s' % (y, org[2])))
+                elif y in self.salias:
+                    base, beg = self.salias[y]
+                    if org[2] == 'length':
+                        out.append('%s__len' % V(y))
+                    elif org[2] == 'values':
+                        if (base, 'values') in self.wfields:
+                            mem = 'mem1_%s_values' % base
+                            if mem not in self.locals:
+                                self.locals[mem] = 'm1i'
+                                self.free(V(mem), 'm1i', ('field', base, 'values'))
+                            out.append('(fun i => %s (%s + i))' % (V(mem), beg))
+                        else:
+                            out.append('(fun i => %s (%s + i))' % (self.free(V('%s_values' % base), lk, ('field', base, 'values')), beg))
+                    else:
+                        raise CTransError('%s: field %s of a permutation window' % (self.name, org[2]))
+                else:
+                    out.append(self.free(V('%s_%s' % (y, org[2])), lk, ('field', y, org[2])))
             elif org[0] == 'mem':
                 y = bind[org[1]][1]
-                mem = 'mem_' + y
+                root, r0, w0 = self.mroot(y)
+                mem = 'mem_' + root
                 if mem not in self.locals:
                     self.locals[mem] = 'm2'
-                    self.free(V(mem), 'm2', ('mem', y))
-                out.append(V(mem))
+                    self.free(V(mem), 'm2', ('mem', root))
+                out.append(V(mem) if y not in self.malias else '(CLoop.view %s %s %s)' % (V(mem), r0, w0))
             elif org[0] == 'global':
                 out.append(self.free('v_' + org[1], lk, org))
+            elif org[0] == 'extern':
+                out.append(self.free('f_' + org[1], lk, org))
             elif org[0] == 'same':
                 ya, yb = bind[org[1]][1], bind[org[2]][1]
-                out.append('true' if ya == yb else self.free('v_%s__same__%s' % (ya, yb), 'b', ('same', ya, yb)))
+                if ya == yb:
+                    out.append('true')
+                elif ya in self.malias or yb in self.malias:
+                    out.append('false')      # a freshly created window header is never identical to another header
+                else:
+                    out.append(self.free('v_%s__same__%s' % (ya, yb), 'b', ('same', ya, yb)))
             else:
                 raise CTransError('%s: parameter origin %r' % (self.name, org))
         return out
@@ -447,10 +516,13 @@ class Fn:
             return mem, row, V(nm)
         mc = self.mzd_row_call(n)
         if mc:
-            mem = 'mem_' + mc[0]
+            root, r0, w0 = self.mroot(mc[0])
+            mem = 'mem_' + root
             if mem not in self.locals:
                 self.locals[mem] = 'm2'
-                self.free(V(mem), 'm2', ('mem', mc[0]))
+                self.free(V(mem), 'm2', ('mem', root))
+            if mc[0] in self.malias:
+                return mem, '(%s + %s)' % (r0, self.value(mc[1])), w0
             return mem, self.value(mc[1]), '(0 : Int)'
         if n.get('kind') == 'BinaryOperator' and n['opcode'] in ('+', '-'):
             mem, row, off = self.ptr_expr(n['inner'][0])
@@ -574,6 +646,11 @@ class Fn:
                     nm = 'deref_' + strip(t['inner'][0])['referencedDecl']['name']
                     if nm not in out:
                         out.append(nm)
+                elif n.get('kind') != 'UnaryOperator' and t.get('kind') == 'MemberExpr' and self.sbuild and \
+                        strip(t['inner'][0]).get('kind') == 'DeclRefExpr' and strip(t['inner'][0])['referencedDecl']['name'] == self.sbuild:
+                    nm = 'fld_' + t['name']
+                    if nm not in out:
+                        out.append(nm)
                 elif n.get('kind') != 'UnaryOperator' and t.get('kind') == 'ArraySubscriptExpr' and \
                         strip(t['inner'][0]).get('kind') == 'MemberExpr':
                     mb = strip(t['inner'][0]); sb = strip(mb['inner'][0])
@@ -596,14 +673,35 @@ class Fn:
             if k == 'CallExpr':
                 cal = strip(n['inner'][0])
                 sig = self.tr.sigs.get(cal.get('referencedDecl', {}).get('name')) if cal.get('kind') == 'DeclRefExpr' else None
-                if sig and sig['void_outs']:
-                    for m_ in sig['void_outs']:
+                def root_of(node):
+                    a = strip(node)
+                    while a.get('kind') in ('CStyleCastExpr', 'ImplicitCastExpr'):
+                        a = strip(a['inner'][0])
+                    if a.get('kind') != 'DeclRefExpr':
+                        return None
+                    x = a['referencedDecl']['name']
+                    return self.malias_pre.get(x, x)
+                if sig and (sig['void_outs'] or sig.get('ret_mems')):
+                    for m_ in (sig['void_outs'] or []) + (sig.get('ret_mems') or []):
+                        if not m_.startswith('mem_'):
+                            continue
                         pos = [i for i, (cn, ck) in enumerate(sig['cparams']) if cn == m_[4:]][0]
-                        a = strip(n['inner'][1 + pos])
+                        x = root_of(n['inner'][1 + pos])
+                        if x and ('mem_' + x) not in out:
+                            out.append('mem_' + x)
+                ext = (self.tr.externs or {}).get(cal.get('referencedDecl', {}).get('name')) if cal.get('kind') == 'DeclRefExpr' else None
+                if ext:
+                    for i in ext.get('writes', ()):
+                        x = root_of(n['inner'][1 + i])
+                        if x and ('mem_' + x) not in out:
+                            out.append('mem_' + x)
+                    for i in ext.get('pwrites', ()):
+                        a = strip(n['inner'][1 + i])
                         while a.get('kind') in ('CStyleCastExpr', 'ImplicitCastExpr'):
                             a = strip(a['inner'][0])
-                        if a.get('kind') == 'DeclRefExpr' and ('mem_' + a['referencedDecl']['name']) not in out:
-                            out.append('mem_' + a['referencedDecl']['name'])
+                        x = self.base_of(a['referencedDecl']['name'])
+                        if ('mem1_%s_values' % x) not in out:
+                            out.append('mem1_%s_values' % x)
             for c in n.get('inner', []):
                 if isinstance(c, dict):
                     walk(c)
@@ -644,6 +742,11 @@ class Fn:
     def assign_stmt(self, n):
         """(C name, Lean rhs) for an assignment-like expression statement, or None"""
         k = n.get('kind')
+        if k in ('BinaryOperator', 'CompoundAssignOperator') and self.sbuild:
+            t = strip(n['inner'][0])
+            if t.get('kind') == 'MemberExpr' and strip(t['inner'][0]).get('kind') == 'DeclRefExpr' and \
+               strip(t['inner'][0])['referencedDecl']['name'] == self.sbuild:
+                return self.sbuild_store(n, t)
         if k == 'BinaryOperator' and n['opcode'] == '=':
             t = strip(n['inner'][0])
             if t.get('kind') == 'UnaryOperator' and t.get('opcode') == '*' and strip(t['inner'][0]).get('kind') == 'DeclRefExpr' \
@@ -749,6 +852,13 @@ class Fn:
                 if dk == 'p:w' and init:
                     out += self.decl_pointer(nm, init[0], pad)
                     continue
+                if dk == 'p:?' and init and strip(init[0]).get('kind') == 'CallExpr' and \
+                   strip(strip(init[0])['inner'][0]).get('referencedDecl', {}).get('name') == 'mzd_t_malloc':
+                    self.sbuild = nm
+                    continue
+                if dk == 'p:?' and init and nm in self.malias_pre:
+                    out += self.decl_window(nm, init[0], pad)
+                    continue
                 if dk == 'p:?' and init and nm in self.salias_pre:
                     c0 = strip(init[0])
                     a = strip(c0['inner'][1])
@@ -761,12 +871,20 @@ class Fn:
                         x = self.salias[x][0]
                     bv = '%s__begin' % V(nm)
                     out += '%slet %s : Int := %s\n' % (pad, bv, beg)
+                    out += '%slet %s__len : Int := (%s - %s)\n' % (pad, V(nm), self.value(c0['inner'][3]), self.value(c0['inner'][2]))
                     self.salias[nm] = (x, bv)
                     continue
                 if dk == 'p:?':
                     continue          # other struct pointer locals (windows of matrices): only used by untranslated calls
                 if dk not in LTYPE:
                     raise CTransError('%s: declaration of %s with unsupported type %r' % (self.name, nm, d['type']['qualType']))
+                if init and strip(init[0]).get('kind') == 'CallExpr' and \
+                   strip(strip(init[0])['inner'][0]).get('referencedDecl', {}).get('name') in (self.tr.externs or {}):
+                    c0 = strip(init[0])
+                    fname = strip(c0['inner'][0])['referencedDecl']['name']
+                    self.locals[nm] = dk
+                    out += self.extern_call(fname, self.tr.externs[fname], c0['inner'][1:], V(nm), pad)
+                    continue
                 self.locals[nm] = dk
                 if init:
                     e = self.value(init[0])
@@ -783,6 +901,9 @@ class Fn:
             if nm not in self.locals:
                 raise CTransError('%s: assignment to non-local %s' % (self.name, nm))
             out = '%slet %s : %s := %s\n' % (pad, V(nm), self.ltype(nm), e)
+            for (xn, xe) in getattr(self, 'extra_lets', []):
+                out += '%slet %s : %s := %s\n' % (pad, V(xn), self.ltype(xn), xe)
+            self.extra_lets = []
             for (pn, d) in self.pending:
                 if pn == nm:
                     raise CTransError('%s: %s both assigned and incremented in one statement' % (self.name, nm))
@@ -804,6 +925,9 @@ class Fn:
                 raise CTransError('%s: continue outside a loop' % self.name)
             L = self.loops[-1]
             return self.seq(list(L['inc']), lambda: L['t'], ind)
+        if k == 'ReturnStmt' and self.sbuild and s.get('inner') and strip(s['inner'][0]).get('kind') == 'DeclRefExpr' and \
+           strip(s['inner'][0])['referencedDecl']['name'] == self.sbuild:
+            return pad + '(' + ', '.join(V('fld_' + f) for f in self.sfields) + ')'
         if k == 'ReturnStmt':
             inner = s.get('inner', [])
             if not inner:
@@ -900,22 +1024,174 @@ class Fn:
             if callee.get('kind') == 'DeclRefExpr' and callee['referencedDecl']['name'] in ('m4ri_die', '__assert_fail', 'assert'):
                 return self.seq(rest, k_final, ind)
             fname = callee.get('referencedDecl', {}).get('name')
+            if fname in ('mzd_free_window', 'mzp_free_window', 'mzd_free', 'mzp_free'):
+                return self.seq(rest, k_final, ind)      # releases a header / block: no effect on the modelled memories
             sig = self.tr.sigs.get(fname)
             if sig and sig['void_outs'] is not None and not sig['outparams']:
                 args = self.call_args(sig, s['inner'][1:])
                 # the callee returns the new contents of the memories it writes: bind them to the caller's memories
-                cparams = dict(sig['cparams'])
-                bindm = []
-                for m_ in sig['void_outs']:
+                # (through `unview` when the argument is a window)
+                out = ''
+                tmp = []
+                for j_, m_ in enumerate(sig['void_outs']):
                     pos = [i for i, (cn, ck) in enumerate(sig['cparams']) if cn == m_[4:]][0]
-                    a = strip(s['inner'][1 + pos])
-                    while a.get('kind') in ('CStyleCastExpr', 'ImplicitCastExpr'):
-                        a = strip(a['inner'][0])
-                    bindm.append('mem_' + a['referencedDecl']['name'])
-                return '%slet %s : %s := (%s %s)\n%s' % (pad, self.tup(bindm), self.tup_type(bindm), self.tr.known_fns[fname],
-                                                        ' '.join(args), self.seq(rest, k_final, ind))
-            raise CTransError('%s: call statement outside the translated subset' % self.name)
+                    tmp.append((self.struct_arg_name(s['inner'][1 + pos]), 'cres%d__%d' % (self.loop_no, j_)))
+                if all(y not in self.malias for y, _ in tmp):
+                    bindm = ['mem_' + y for y, _ in tmp]
+                    return '%slet %s : %s := (%s %s)\n%s' % (pad, self.tup(bindm), self.tup_type(bindm), self.tr.known_fns[fname],
+                                                            ' '.join(args), self.seq(rest, k_final, ind))
+                names = [t_ for _, t_ in tmp]
+                out += '%slet %s := (%s %s)\n' % (pad, names[0] if len(names) == 1 else '(' + ', '.join(names) + ')',
+                                                 self.tr.known_fns[fname], ' '.join(args))
+                for y, t_ in tmp:
+                    out += self.writeback(y, t_, pad)
+                return out + self.seq(rest, k_final, ind)
+            ext = (self.tr.externs or {}).get(fname)
+            if ext is not None:
+                return self.extern_call(fname, ext, s['inner'][1:], None, pad) + self.seq(rest, k_final, ind)
+            raise CTransError('%s: call statement %s outside the translated subset' % (self.name, fname))
         raise CTransError('%s: unsupported statement kind %s' % (self.name, k))
+
+    def writeback(self, y, resname, pad):
+        """bind the memory a callee returned for its matrix argument `y` to the caller's root memory"""
+        root, r0, w0 = self.mroot(y)
+        mem = 'mem_' + root
+        if mem not in self.locals:
+            self.locals[mem] = 'm2'
+            self.free(V(mem), 'm2', ('mem', root))
+        if y not in self.malias:
+            return '%slet %s : %s := %s\n' % (pad, V(mem), LTYPE['m2'], resname)
+        return '%slet %s : %s := (CLoop.unview %s %s %s %s %s %s)\n' % (
+            pad, V(mem), LTYPE['m2'], V(mem), r0, w0, V('%s_nrows' % y), V('%s_width' % y), resname)
+
+    def extern_call(self, fname, ext, argnodes, result_var, pad):
+        """a call of a function that is NOT translated: it becomes an application of the function parameter `f_<name>`;
+        matrix arguments are passed as `CLoop.MView`s, permutations as their `values` array, scalars as they are; the
+        parameter returns (its C return value, if any, then) the new memory of every matrix argument listed under
+        `writes` and the new `values` of every permutation listed under `pwrites`"""
+        args = []
+        tys = []
+        for i, an in enumerate(argnodes):
+            k_ = kind_of(qt(strip(an))) or ''
+            if i in ext.get('mats', ()):
+                args.append(self.mview(self.struct_arg_name(an)))
+                tys.append('CLoop.MView')
+            elif i in ext.get('perms', ()):
+                y = self.struct_arg_name(an)
+                base, beg = self.salias.get(y, (y, '(0 : Int)'))
+                mem = 'mem1_%s_values' % base
+                if mem not in self.locals:
+                    self.locals[mem] = 'm1i'
+                    self.free(V(mem), 'm1i', ('field', base, 'values'))
+                args.append('(fun i => %s (%s + i))' % (V(mem), beg) if y in self.salias else V(mem))
+                tys.append('(Int → Int)')
+            else:
+                args.append(self.value(an))
+                tys.append(LTYPE[self.expr_kind(strip(an))])
+        rets = []
+        if ext.get('ret'):
+            rets.append(LTYPE[ext['ret']])
+        rets += ['(%s)' % LTYPE['m2']] * len(ext.get('writes', ())) + ['(Int → Int)'] * len(ext.get('pwrites', ()))
+        fty = ' → '.join(tys + [' × '.join(rets)])
+        fparam = self.free('f_' + fname, 'fn:' + fty, ('extern', fname))
+        names = []
+        if ext.get('ret'):
+            names.append(result_var or 'cret__')
+        wn = ['cres%d__%d' % (self.loop_no, j_) for j_ in range(len(ext.get('writes', ())))]
+        pn = ['cperm%d__%d' % (self.loop_no, j_) for j_ in range(len(ext.get('pwrites', ())))]
+        names += wn + pn
+        out = '%slet %s := (%s %s)\n' % (pad, names[0] if len(names) == 1 else '(' + ', '.join(names) + ')', fparam, ' '.join(args))
+        for i, t_ in zip(ext.get('writes', ()), wn):
+            out += self.writeback(self.struct_arg_name(argnodes[i]), t_, pad)
+        for i, t_ in zip(ext.get('pwrites', ()), pn):
+            y = self.struct_arg_name(argnodes[i])
+            base, beg = self.salias.get(y, (y, None))
+            mem = 'mem1_%s_values' % base
+            if beg is None:
+                out += '%slet %s : Int → Int := %s\n' % (pad, V(mem), t_)
+            else:
+                # the callee wrote the window's entries: positions [beg, beg + length)
+                out += '%slet %s : Int → Int := (fun i => if %s ≤ i ∧ i < %s + %s then %s (i - %s) else %s i)\n' % (
+                    pad, V(mem), beg, beg, V('%s__len' % y), t_, beg, V(mem))
+        return out
+
+    def sbuild_store(self, n, t):
+        """`W->f = e` / `W->f |= e` on the struct under construction: (local name, Lean term)"""
+        f = t['name']
+        if f == 'data':
+            # W->data = M->data + a * M->rowstride + b   ->   (row offset a, word offset b)
+            rhs = strip(n['inner'][1])
+            def flat(x):
+                x = strip(x)
+                while x.get('kind') in ('CStyleCastExpr', 'ImplicitCastExpr'):
+                    x = strip(x['inner'][0])
+                if x.get('kind') == 'BinaryOperator' and x['opcode'] == '+':
+                    return flat(x['inner'][0]) + flat(x['inner'][1])
+                return [x]
+            terms = flat(rhs)
+            def is_member(x, f_):
+                x = strip(x)
+                while x.get('kind') in ('CStyleCastExpr', 'ImplicitCastExpr'):
+                    x = strip(x['inner'][0])
+                return x.get('kind') == 'MemberExpr' and x.get('name') == f_
+            if len(terms) != 3 or not is_member(terms[0], 'data'):
+                raise CTransError('%s: unsupported data pointer of the struct under construction' % self.name)
+            rowt = None; wordt = None
+            for x in terms[1:]:
+                if x.get('kind') == 'BinaryOperator' and x['opcode'] == '*' and (is_member(x['inner'][0], 'rowstride') or is_member(x['inner'][1], 'rowstride')):
+                    other = x['inner'][1] if is_member(x['inner'][0], 'rowstride') else x['inner'][0]
+                    rowt = self.as_int(other)
+                else:
+                    wordt = self.as_int(x)
+            if rowt is None or wordt is None:
+                raise CTransError('%s: unsupported data pointer of the struct under construction' % self.name)
+            for nm_, e_ in (('fld_data_row', rowt),):
+                pass
+            self.locals['fld_data_row'] = 'i'; self.locals['fld_data_word'] = 'i'
+            if 'data_row' not in self.sfields:
+                self.sfields += ['data_row', 'data_word']
+            self.extra_lets = [('fld_data_word', wordt)]
+            return 'fld_data_row', rowt
+        fk = self.expr_kind(t)
+        nm = 'fld_' + f
+        if n['kind'] == 'BinaryOperator':
+            if f not in self.sfields:
+                self.sfields.append(f)
+            self.locals[nm] = fk
+            rk = self.expr_kind(strip(n['inner'][1]))
+            e = self.value(n['inner'][1])
+            return nm, (self.conv(e, rk, fk, qt(t)) if rk != fk else e)
+        if nm not in self.locals:
+            raise CTransError('%s: compound store into an unset field' % self.name)
+        op = n['opcode'][:-1]
+        ck = kind_of(n.get('computeResultType', {}).get('qualType', '')) or fk
+        lhs = self.conv(V(nm), fk, ck, n.get('computeLHSType', {}).get('qualType', ''))
+        rk = self.expr_kind(strip(n['inner'][1]))
+        rhs = self.value(n['inner'][1])
+        rhs = self.conv(rhs, rk, ck) if rk != ck else rhs
+        m = {'|': '(CLoop.ior %s %s)', '&': '(CLoop.iand %s %s)', '^': '(CLoop.ixor %s %s)', '+': '(%s + %s)', '-': '(%s - %s)'} if ck == 'i' else \
+            {'|': '(%s ||| %s)', '&': '(%s &&& %s)', '^': '(%s ^^^ %s)', '+': '(%s + %s)', '-': '(%s - %s)'}
+        return nm, self.conv(m[op] % (lhs, rhs), ck, fk, qt(t))
+
+    def decl_window(self, nm, init, pad):
+        """`mzd_t *Y = mzd_init_window(X, lowr, lowc, highr, highc)`: Y becomes a view of X's root memory; its fields are the
+        values the generated `mzd_init_window` computes"""
+        c0 = strip(init)
+        while c0.get('kind') in ('CStyleCastExpr', 'ImplicitCastExpr'):
+            c0 = strip(c0['inner'][0])
+        sig = self.tr.sigs.get('mzd_init_window')
+        if not sig:
+            raise CTransError('%s: mzd_init_window is not translated yet' % self.name)
+        x = self.struct_arg_name(c0['inner'][1])
+        args = self.call_args(sig, c0['inner'][1:])
+        root, r0, w0 = self.mroot(x)
+        fields = sig['sfields']
+        names = [V('%s_%s' % (nm, f)) if not f.startswith('data_') else V('%s__%s' % (nm, f)) for f in fields]
+        out = '%slet (%s) := (%s %s)\n' % (pad, ', '.join(names), self.tr.known_fns['mzd_init_window'], ' '.join(args))
+        out += '%slet %s__r0 : Int := (%s + %s)\n' % (pad, V(nm), r0, V('%s__data_row' % nm))
+        out += '%slet %s__w0 : Int := (%s + %s)\n' % (pad, V(nm), w0, V('%s__data_word' % nm))
+        self.malias[nm] = (root, '%s__r0' % V(nm), '%s__w0' % V(nm))
+        return out
 
     def mzd_row_call(self, n):
         """(matrix parameter name, row node) if n is `mzd_row(M, r)` / `mzd_row_const(M, r)`"""
@@ -952,6 +1228,15 @@ class Fn:
                 init = [c for c in n.get('inner', []) if isinstance(c, dict) and not c.get('kind', '').endswith('Comment')]
                 if init:
                     c0 = strip(init[0])
+                    while c0.get('kind') in ('CStyleCastExpr', 'ImplicitCastExpr'):
+                        c0 = strip(c0['inner'][0])
+                    if c0.get('kind') == 'CallExpr' and strip(c0['inner'][0]).get('referencedDecl', {}).get('name') in ('mzd_init_window', 'mzd_init_window_const'):
+                        a = strip(c0['inner'][1])
+                        while a.get('kind') in ('CStyleCastExpr', 'ImplicitCastExpr'):
+                            a = strip(a['inner'][0])
+                        if a.get('kind') == 'DeclRefExpr':
+                            x = a['referencedDecl']['name']
+                            self.malias_pre[n['name']] = self.malias_pre.get(x, x)
                     if c0.get('kind') == 'CallExpr' and strip(c0['inner'][0]).get('referencedDecl', {}).get('name') == 'mzp_init_window':
                         a = strip(c0['inner'][1])
                         while a.get('kind') in ('CStyleCastExpr', 'ImplicitCastExpr'):
@@ -968,6 +1253,22 @@ class Fn:
                 if isinstance(c, dict):
                     walk0(c)
         walk0(body)
+
+        def walk1(n):
+            if n.get('kind') == 'CallExpr':
+                cal = strip(n['inner'][0])
+                ext = (self.tr.externs or {}).get(cal.get('referencedDecl', {}).get('name')) if cal.get('kind') == 'DeclRefExpr' else None
+                if ext:
+                    for i in ext.get('pwrites', ()):
+                        a = strip(n['inner'][1 + i])
+                        while a.get('kind') in ('CStyleCastExpr', 'ImplicitCastExpr'):
+                            a = strip(a['inner'][0])
+                        if a.get('kind') == 'DeclRefExpr':
+                            self.wfields.add((a['referencedDecl']['name'], 'values'))
+            for c in n.get('inner', []):
+                if isinstance(c, dict):
+                    walk1(c)
+        walk1(body)
         self.wfields = set((base_of(a), f) for a, f in self.wfields)
         self.base_of = base_of
 
@@ -978,7 +1279,7 @@ class Fn:
                     base, _ = self.ptr_source(init[0])
                     mc = self.mzd_row_call(base)
                     if mc:
-                        self.ptr_mem[n['name']] = 'mem_' + mc[0]
+                        self.ptr_mem[n['name']] = 'mem_' + self.malias_pre.get(mc[0], mc[0])
                     elif base.get('kind') == 'DeclRefExpr' and base['referencedDecl']['name'] in self.ptr_mem:
                         self.ptr_mem[n['name']] = self.ptr_mem[base['referencedDecl']['name']]
             for c in n.get('inner', []):
@@ -990,13 +1291,18 @@ class Fn:
         base, off = self.ptr_source(init)
         mc = self.mzd_row_call(base)
         if mc:
-            mem = 'mem_' + mc[0]
+            root, r0, w0 = self.mroot(mc[0])
+            mem = 'mem_' + root
             if mem not in self.locals:
                 self.locals[mem] = 'm2'
-                self.free(V(mem), 'm2', ('mem', mc[0]))
+                self.free(V(mem), 'm2', ('mem', root))
             rowv = '%s__row' % V(nm)
-            out = '%slet %s : Int := %s\n' % (pad, rowv, self.value(mc[1]))
-            start = '(0 : Int)'
+            if mc[0] in self.malias:
+                out = '%slet %s : Int := (%s + %s)\n' % (pad, rowv, r0, self.value(mc[1]))
+                start = w0
+            else:
+                out = '%slet %s : Int := %s\n' % (pad, rowv, self.value(mc[1]))
+                start = '(0 : Int)'
         elif base.get('kind') == 'DeclRefExpr' and base['referencedDecl']['name'] in self.ptrs:
             q = base['referencedDecl']['name']
             mem, rowv = self.ptrs[q]
@@ -1021,7 +1327,7 @@ class Fn:
         return LTYPE[k]
 
     def ret_lean_type(self):
-        return ' × '.join([LTYPE[self.ret_kind]] + ['Int'] * len(self.outparams) + ['(%s)' % LTYPE['m2']] * len(self.ret_mems))
+        return ' × '.join([LTYPE[self.ret_kind]] + ['Int'] * len(self.outparams) + ['(%s)' % self.ltype(m) for m in self.ret_mems])
 
     def tup_type(self, names):
         ts = [self.ltype(x) for x in names]
@@ -1170,7 +1476,9 @@ class Translator:
         self.tu_dir_nosse = tu_dir_nosse
         self.known_fns = {}       # C name -> Lean name
         self.sigs = {}            # C name -> signature of the generated function (for calls)
-        self.globals_ = {'m4ri_radix': ('i', '64'), 'm4ri_one': ('w', '1'), 'm4ri_ffff': ('w', None)}
+        self.externs = None       # per function: C name -> description of an untranslated callee
+        self.globals_ = {'m4ri_radix': ('i', '64'), 'm4ri_one': ('w', '1'), 'm4ri_ffff': ('w', None),
+                         'mzd_flag_nonzero_excess': ('c', '2'), 'mzd_flag_windowed': ('c', '4')}
         self.fuels = {}
         self.out = []
         self.meta = []
@@ -1185,7 +1493,7 @@ class Translator:
         k, v = self.globals_[name]
         if name == 'm4ri_ffff':
             return '(BitVec.allOnes 64)'
-        return '(%s : Int)' % v if k == 'i' else '(%s#64)' % v
+        return '(%s : Int)' % v if k == 'i' else '(%s#%d)' % (v, WIDTH[k])
 
     def check_globals(self):
         """the three global constants the translation inlines must still have the values assumed here"""
@@ -1197,11 +1505,16 @@ class Translator:
             raise CTransError('misc.h: definition of m4ri_one not recognised')
         if not re.search(r'static\s+word\s+const\s+m4ri_ffff\s*=\s*__M4RI_CONVERT_TO_WORD\(-1\)', misc):
             raise CTransError('misc.h: definition of m4ri_ffff not recognised')
+        mzdh = open(os.path.join(self.tu_dir, 'm4ri', 'mzd.h')).read()
+        if not re.search(r'static\s+uint8_t\s+const\s+mzd_flag_nonzero_excess\s*=\s*0x2\s*;', mzdh) or \
+           not re.search(r'static\s+uint8_t\s+const\s+mzd_flag_windowed\s*=\s*0x4\s*;', mzdh):
+            raise CTransError('mzd.h: the flag constants are no longer 0x2 / 0x4')
 
-    def function(self, cfile, cname, lname, fuels=(), slice_=None, doc='', nosse=False, outparams=None, mem1=None):
+    def function(self, cfile, cname, lname, fuels=(), slice_=None, doc='', nosse=False, outparams=None, mem1=None, builder=False, externs=None):
         for i, f in enumerate(fuels):
             self.fuels[(cname if not slice_ else lname, i + 1)] = f
         ast = clang_ast(self.tu_dir if not nosse else self.tu_dir_nosse, cfile, cname, sse=not nosse)
+        self.externs = externs
         fn = Fn(self, cname if not slice_ else lname)
         body = [c for c in ast['inner'] if c.get('kind') == 'CompoundStmt'][0]
         if slice_ is None:
@@ -1246,6 +1559,10 @@ class Translator:
                     fn.free(V(m_), 'm2', ('mem', m_[4:]))
                 term = fn.prelude + fn.seq(stmts, lambda: fn.tup(outs), 1)
                 rty = fn.tup_type(outs)
+            elif builder:
+                fn.ret_kind = None
+                term = fn.seq(stmts, lambda: (_ for _ in ()).throw(CTransError('%s: control reaches the end without return' % cname)), 1)
+                rty = ' × '.join('(%s)' % fn.ltype('fld_' + f) for f in fn.sfields)
             else:
                 fn.ret_kind = kind_of(rt)
                 fn.ret_type = rt
@@ -1258,9 +1575,26 @@ class Translator:
                 term = fn.seq(stmts, lambda: (_ for _ in ()).throw(CTransError('%s: control reaches the end without return' % cname)), 1)
                 rty = fn.ret_lean_type()
         else:
-            outs = slice_['outs']
+            outs = slice_.get('outs')
             fn.prepass(body)
-            if 'after' in slice_:
+            if 'from_decl' in slice_:
+                stmts = find_to_end(body, slice_['from_decl'], cname)
+                fn.ret_kind = kind_of(ast['type']['qualType'].split('(')[0].strip())
+                fn.ret_type = ast['type']['qualType'].split('(')[0].strip()
+                fn.ret_mems = [x for x in fn.assigned(stmts) if x.startswith('mem_') or x.startswith('mem1_')]
+                for m_ in fn.ret_mems:
+                    if m_.startswith('mem1_'):
+                        fn.locals[m_] = 'm1i'
+                        fn.free(V(m_), 'm1i', ('field',) + tuple(m_[5:].split('_', 1)))
+                    else:
+                        fn.locals[m_] = 'm2'
+                        fn.free(V(m_), 'm2', ('mem', m_[4:]))
+                # the struct aliases declared before the slice in the same function are not visible: the slice must be
+                # self-contained
+                term = fn.seq(stmts, lambda: (_ for _ in ()).throw(CTransError('%s: slice does not end in return' % cname)), 1)
+                rty = fn.ret_lean_type()
+                outs = None
+            elif 'after' in slice_:
                 stmts = find_after(body, slice_['after'], slice_['take_for'], cname)
             else:
                 start, end = slice_['start'], slice_['end']
@@ -1270,23 +1604,24 @@ class Translator:
             for nm, ty in slice_.get('predeclared', {}).items():
                 fn.locals[nm] = ty
             pre = ''.join('  let %s : %s := %s\n' % (V(nm), LTYPE[ty], fn.lit(0, ty)) for nm, ty in slice_.get('predeclared', {}).items())
-            for o_ in outs:
+            for o_ in (outs or []):
                 if o_.startswith('mem1_') and o_ not in fn.locals:
                     fn.locals[o_] = 'm1i'
                     fn.free(V(o_), 'm1i', ('field',) + tuple(o_[5:].split('_', 1)))
                 if o_.startswith('mem_') and o_ not in fn.locals:
                     fn.locals[o_] = 'm2'
                     fn.free(V(o_), 'm2', ('mem', o_[4:]))
-            term = pre + fn.seq(stmts, lambda: fn.tup(outs), 1)
-            rty = fn.tup_type(outs)
+            if outs is not None:
+                term = pre + fn.seq(stmts, lambda: fn.tup(outs), 1)
+                rty = fn.tup_type(outs)
         params = ' '.join('(%s : %s)' % (n, lean_type(k)) for n, k in fn.params)
         self.known_fns[cname] = 'M4ri.Gen.C.' + lname
         if not slice_:
             self.sigs[cname] = dict(cparams=[(p_['name'], kind_of(p_['type']['qualType'])) for p_ in ast['inner'] if p_.get('kind') == 'ParmVarDecl'],
                                     params=[(n_, k_, fn.origin[n_]) for n_, k_ in fn.params], void_outs=fn.void_outs,
-                                    outparams=list(fn.outparams), ret_mems=list(fn.ret_mems))
+                                    outparams=list(fn.outparams), ret_mems=list(fn.ret_mems), sfields=list(fn.sfields))
         self.out.append('/-- %s `%s`%s%s -/\ndef %s %s : %s :=\n%s\n' % (
-            cfile, cname, ' (slice %s .. %s)' % (slice_.get('start', 'after ' + str(slice_.get('after'))), slice_.get('end', '%s for-loops' % slice_.get('take_for'))) if slice_ else '', (' — ' + doc) if doc else '',
+            cfile, cname, ' (slice %s .. %s)' % (slice_.get('start', 'after ' + str(slice_.get('after', slice_.get('from_decl')))), slice_.get('end', '%s for-loops' % slice_.get('take_for'))) if slice_ else '', (' — ' + doc) if doc else '',
             lname, params, rty, term))
         self.meta.append(dict(file=cfile, function=cname, lean=lname, params=[n for n, _ in fn.params], slice=bool(slice_), loops=fn.loop_no))
 
@@ -1299,6 +1634,26 @@ def declares_or_assigns(s, var):
         t = strip(s['inner'][0])
         return t.get('kind') == 'DeclRefExpr' and t['referencedDecl']['name'] == var
     return False
+
+
+def find_to_end(body, var, cname):
+    """the statements from the declaration of `var` to the end of the block that declares it"""
+    found = []
+
+    def walk(n):
+        if n.get('kind') == 'CompoundStmt':
+            ch = n.get('inner', [])
+            for i, s in enumerate(ch):
+                if declares_or_assigns(s, var) and s.get('kind') == 'DeclStmt':
+                    found.append(ch[i:])
+                    break
+        for c in n.get('inner', []):
+            if isinstance(c, dict):
+                walk(c)
+    walk(body)
+    if len(found) != 1:
+        raise CTransError('%s: %d blocks declare %s' % (cname, len(found), var))
+    return found[0]
 
 
 def find_after(body, var, nfor, cname):
@@ -1398,6 +1753,8 @@ def catalogue(t):
     F('m4ri/mzd.c', 'mzd_combine_even_in_place', 'mzdCombineEvenInPlace', nosse=True, fuels=['(v_A_width).toNat'],
       doc='scalar path: Duff device')
     F('m4ri/mzd.c', 'mzd_combine_even', 'mzdCombineEven', nosse=True, fuels=['(v_A_width).toNat'], doc='scalar path: Duff device')
+    F('m4ri/mzd.c', 'mzd_init_window', 'mzdInitWindow', builder=True,
+      doc='the header of a window: (nrows, ncols, rowstride, width, high_bitmask, flags, row offset, word offset of its data)')
     F('m4ri/mzd.c', 'mzd_read_bits_int', 'mzdReadBitsInt')
     PR = ['(v_stoprow).toNat + 1'] + ['(v_M_width).toNat'] * 3 + ['(v_stoprow).toNat + 1', '(v_M_width).toNat'] + \
          ['(v_stoprow).toNat + 1', '(v_M_width).toNat', '(v_stoprow).toNat + 1', '(v_M_width).toNat']
@@ -1412,6 +1769,11 @@ def catalogue(t):
       fuels=['(v_M_ncols).toNat', '(v_M_nrows).toNat', '(v_M_nrows).toNat'])
     F('m4ri/mzp.c', 'mzd_apply_p_left', 'mzdApplyPLeft', fuels=['(v_A_nrows).toNat'])
     F('m4ri/mzp.c', 'mzd_apply_p_left_trans', 'mzdApplyPLeftTrans', fuels=['(v_A_nrows).toNat'])
+    F('m4ri/mzd.c', 'mzd_set_ui', 'mzdSetUi', fuels=['(v_A_nrows).toNat', '(v_A_width).toNat', '(v_A_nrows).toNat'])
+    TRSM = dict(mats=(0, 1), writes=(1,))
+    F('m4ri/solve.c', '_mzd_pluq_solve_left', 'pluqSolveLeft', fuels=['(v_B_nrows).toNat', '(v_B_ncols).toNat'],
+      externs={'mzd_trsm_lower_left': TRSM, 'mzd_trsm_upper_left': TRSM, 'mzd_addmul': dict(mats=(0, 1, 2), writes=(0,))},
+      doc='solving with a given PLUQ factorisation; the triangular solves and the product are function parameters')
     R, W = '(v_A_nrows).toNat', '(v_A_width).toNat'
     F('m4ri/mzd.c', 'mzd_find_pivot', 'mzdFindPivot', outparams=('r', 'c'),
       fuels=['(v_A_ncols).toNat + 1', R, '64', R, '64', W, R, '64', R, '64'])
@@ -1438,6 +1800,27 @@ def catalogue(t):
     F('m4ri/ple.c', '_mzd_ple', 'plePermUpdate', fuels=['(v_nrows).toNat', '(v_ncols).toNat', '(v_r2).toNat'],
       slice_=dict(after='r2', take_for=3, outs=['mem1_P_values', 'mem1_Q_values']),
       doc='the permutation bookkeeping after the second recursive call: P2 += r1, Q2 += n1, Q[r1..r1+r2) = Q[n1..n1+r2) (P2, Q2 are windows of P, Q)')
+    AM = dict(mats=(0, 1, 2), writes=(0,))
+    T2 = dict(mats=(0, 1), writes=(1,))
+    for (cfn, lfn, base_, mid_) in (('_mzd_trsm_upper_right', 'trsmUpperRightRec', '_mzd_trsm_upper_right_base', '_mzd_trsm_upper_right_trtri'),
+                                    ('_mzd_trsm_lower_right', 'trsmLowerRightRec', '_mzd_trsm_lower_right_base', None),
+                                    ('_mzd_trsm_lower_left', 'trsmLowerLeftRec', None, '_mzd_trsm_lower_left_russian'),
+                                    ('_mzd_trsm_upper_left', 'trsmUpperLeftRec', None, '_mzd_trsm_upper_left_russian')):
+        ext = {cfn: T2, 'mzd_addmul': AM, '_mzd_addmul': AM}
+        if base_:
+            ext[base_] = T2
+        if mid_:
+            ext[mid_] = dict(mats=(0, 1), writes=(1,))
+        F('m4ri/triangular.c', cfn, lfn, externs=ext, fuels=['(v_B_nrows).toNat + (v_B_ncols).toNat'] * 4,
+          doc='regime switch + block recursion (the base kernels, the recursive calls and the product are function parameters)')
+    PLE_EXT = {'_mzd_ple': dict(mats=(0,), perms=(1, 2), ret='i', writes=(0,), pwrites=(1, 2)),
+               '_mzd_trsm_lower_left': dict(mats=(0, 1), writes=(1,)),
+               'mzd_addmul': dict(mats=(0, 1, 2), writes=(0,)),
+               '_mzd_compress_l': dict(mats=(0,), writes=(0,))}
+    F('m4ri/ple.c', '_mzd_ple', 'pleRecStep', fuels=['(v_nrows).toNat', '(v_ncols).toNat', '(v_ncols).toNat'],
+      slice_=dict(from_decl='n1'), externs=PLE_EXT,
+      doc='the block-recursive step: split, first recursive call, Schur complement, second recursive call, fix-ups of A10, P, Q, '
+          'L compression; the recursive calls, the triangular solve, the product and the L compression are function parameters')
     F('m4ri/ple.c', '_mzd_ple', 'plePermInit', fuels=['(v_A_nrows).toNat', '(v_A_ncols).toNat'],
       slice_=dict(after='nrows', take_for=2, outs=['mem1_P_values', 'mem1_Q_values']),
       doc='P[i] = i for the zero rows, Q[i] = i')
@@ -1480,6 +1863,18 @@ def ishl (a : Int) (n : Nat) : Int := a * 2 ^ n
 /-- store into a 2-dimensional word memory (row, word index) -/
 def upd2 (m : Int → Int → BitVec 64) (r i : Int) (v : BitVec 64) : Int → Int → BitVec 64 :=
   fun r' i' => if r' = r ∧ i' = i then v else m r' i'
+/-- what a callee sees of a window: the parent's memory shifted by the window's row / word offset -/
+def view (m : Int → Int → BitVec 64) (r0 w0 : Int) : Int → Int → BitVec 64 := fun r w => m (r0 + r) (w0 + w)
+/-- write a callee's result for a window (rows `[0,nr)`, words `[0,nw)` of the window) back into the parent's memory -/
+def unview (m : Int → Int → BitVec 64) (r0 w0 nr nw : Int) (res : Int → Int → BitVec 64) : Int → Int → BitVec 64 :=
+  fun r w => if r0 ≤ r ∧ r < r0 + nr ∧ w0 ≤ w ∧ w < w0 + nw then res (r - r0) (w - w0) else m r w
+/-- a matrix argument of a function that is NOT translated (passed to the function parameter that stands for it) -/
+structure MView where
+  mem : Int → Int → BitVec 64
+  nrows : Int
+  ncols : Int
+  width : Int
+  hb : BitVec 64
 /-- store into a 1-dimensional integer array -/
 def upd1 (m : Int → Int) (i v : Int) : Int → Int := fun i' => if i' = i then v else m i'
 /-- a constant local array -/
